@@ -78,6 +78,7 @@ TARGETS = [
     ('IRelationComponent_has_relation', 'qce_circuit.structure.intrf_circuit_operation', 'IRelationComponent', 'has_relation'),
     ('Composite_start_time', 'qce_circuit.structure.intrf_circuit_operation_composite', 'CircuitCompositeOperation', 'start_time'),
     ('Composite_duration', 'qce_circuit.structure.intrf_circuit_operation_composite', 'CircuitCompositeOperation', 'duration'),
+    ('Composite_lead_and_span', 'qce_circuit.structure.intrf_circuit_operation_composite', 'CircuitCompositeOperation', '_lead_and_span'),
     # --- C02 / C05 / C06 / C11: the builder (effects are recorded, not executed: `Py.callEffects`)
     ('Graph_add_to_graph', 'qce_circuit.structure.intrf_circuit_operation_composite', 'CircuitGraphBranch', 'add_to_graph'),
     ('Graph_get_leaf_at_any', 'qce_circuit.structure.intrf_circuit_operation_composite', 'CircuitGraphBranch', 'get_leaf_at_any'),
@@ -163,6 +164,8 @@ def expr(e: ast.AST) -> str:
     if isinstance(e, ast.Name):
         return f'.name {lstr(e.id)}'
     if isinstance(e, ast.Attribute):
+        if isinstance(e.value, ast.Name) and e.value.id in NUMPY_NAMES and e.attr == 'inf':
+            return '.enumc "float" "inf"'                   # +infinity (only `min`/`max`/unary minus know it)
         if isinstance(e.value, ast.Name) and e.value.id[:1].isupper() and e.attr.isupper():
             return f'.enumc {lstr(e.value.id)} {lstr(e.attr)}'
         return f'.attr ({expr(e.value)}) {lstr(e.attr)}'
